@@ -262,7 +262,12 @@ func unwrapSess(s kex.Session) kex.Session {
 
 // One request against the real HTTP handler and the real responders from every
 // protocol-reachable session profile: effects only through in-order, session-bound messages.
-func VerifC08_OneStep() {
+func VerifC08_OneStep() { vOneStep(false) }
+
+// C10: no request shape of this grammar crashes the HTTP handler or a responder
+func VerifC10_HandlerOneStep() { vOneStep(true) }
+
+func vOneStep(nopanic bool) {
 	verif.Bound("C08", "one request of type in {10,12,20,22,30,32,60,62,64,66,68,70,255,11,99}; bearer token absent / this session / another session / missing 'Bearer ' prefix / unknown; this session in one of 9 profiles (none, fresh, after DI 10, after TO0 20, after TO1 30, after TO2 60, after TO2 64 (tunnel keys), after 66, after 68); another fully populated TO2 session for isolation; message bodies well-formed with symbolic values, nonces either echoing the session's or arbitrary; model key-exchange session whose Decrypt needs tunnel keys")
 	c := vC08Setup()
 	w := c.w
@@ -302,7 +307,7 @@ func VerifC08_OneStep() {
 	req := &nethttp.Request{Method: "POST", URL: &url.URL{Path: "/fdo/101/msg/" + strconv.Itoa(msgType)}, Header: hdr,
 		Body: io.NopCloser(bytes.NewReader(body)), ContentLength: int64(len(body))}
 	rec := &vRecorder{hdr: nethttp.Header{}}
-	panicked, _ := verif.Caught(func() { c.h.ServeHTTP(rec, req) })
+	panicked := vRun(nopanic, func() { c.h.ServeHTTP(rec, req) })
 	if panicked {
 		verif.Reached("panicked")
 		// a crashing request must not have caused an effect either
